@@ -11,6 +11,20 @@ E2 = "stateless model checking: exhaustive DFS of the choice tree of RNG answers
 E3 = "explicit-state BFS over operation histories of the real object, reference-model comparison in every state"
 
 CHECKS = {
+    "C16": dict(
+        built=True,
+        category="exploration",
+        engine="E1",
+        technique=E1 + "; all small item lists, subset / set-partition oracles in exact rationals",
+        text="All knapsack instances with <=4 items over values, weights {0..3}, capacities 0..6, min and max, plus a decimal "
+        "family; all bin-packing instances with <=6 items of size 0..4 and capacities 1..6 and a decimal family (sizes 0.1..0.9), "
+        "for the four heuristics. Index validity, capacity, objective = sum, OPTIMAL => no better subset; every item in one bin, "
+        "loads <= capacity, bins numbered 0..k-1, k >= ceil(total/capacity), 11/9 OPT + 6/9 for the decreasing variants and "
+        "OPTIMAL => k = OPT, with OPT from all set partitions.",
+        note="Trusts: subset and partition enumeration in fractions.Fraction. Decimal data is judged with the solver's own 1e-9 "
+        "tolerance and against the intended one-digit decimals.",
+        ref="2/C16",
+    ),
     "C07": dict(
         built=True,
         category="exploration",
